@@ -10,6 +10,11 @@
 (*   Write     InputFile.write_ui_json(name, path)              (input_file.py:390-424)         *)
 (*   Read      InputFile.read_ui_json(path) + .data, the new object replaces the old one        *)
 (*             (input_file.py:192-212)                                                          *)
+(*   Assign    in_file.data = {identifiers of the current data}: the data setter promotes,     *)
+(*             validates and updates ui_json                          (input_file.py:121-150)         *)
+(*   Edit      environment: the project file is edited through another handle (every entity     *)
+(*             renamed); entities promoted afterwards are those of the edited project (EntB),   *)
+(*             objects promoted before stay what they were (Ent)                                *)
 (*   Demote    InputFile.demote(data)      (observation)        (input_file.py:500-518)         *)
 (*   Promote   InputFile.promote(identifiers of data) (observation) (input_file.py:520-545)     *)
 (*                                                                                              *)
@@ -51,13 +56,15 @@ CONSTANTS
     MaxWrite,     \* Write budget per behaviour
     Validates,    \* subset of BOOLEAN
     SetClass,     \* "all" | "plain" | "none": which values SetValue may use
+    MaxEdit,      \* 0 | 1 : Edit budget
+    MaxAssign,    \* Assign budget
     UpdEnabled,   \* subset of BOOLEAN: validation_options["update_enabled"] of the InputFile (default TRUE;
                   \* FALSE = InputFile(..., validation_options={"update_enabled": False}), input_file.py:308-313)
     Deviations
 
-VARIABLES raw, validate, upden, loaded, dead, forms, data, req, disk, wdata, wen, fresh, rfail, nset, nwrite, last
+VARIABLES raw, validate, upden, loaded, dead, forms, data, req, disk, wdata, wen, fresh, rfail, nset, nwrite, wsgen, nassign, last
 
-vw == <<raw, validate, upden, loaded, dead, forms, data, req, disk, wdata, wen, fresh, rfail, nset, nwrite>>
+vw == <<raw, validate, upden, loaded, dead, forms, data, req, disk, wdata, wen, fresh, rfail, nset, nwrite, wsgen, nassign>>
 vars == <<vw, last>>
 
 Dev(d) == d \in Deviations
@@ -89,10 +96,12 @@ NumifyE(t) ==
       [] t.c = "StrUuid"  -> IF Dev("UuidTextAsId") THEN I("Id", "unk") ELSE t
       [] OTHER -> t
 \* promote (input_file.py:536-545 _uid_promotion, shared/utils.py:388-409 uuid2entity: unknown uid -> None)
-PromoteE(t) == IF t.c = "Id" THEN (IF t.x = "unk" THEN T("None") ELSE I("Ent", t.x)) ELSE t
+\* the entity handed out is the one of the project as it is *now* (Ent before, EntB after the Edit): every
+\* Workspace.open rebuilds the registry from the file
+PromoteE(t) == IF t.c = "Id" THEN (IF t.x = "unk" THEN T("None") ELSE I(IF wsgen = 0 THEN "Ent" ELSE "EntB", t.x)) ELSE t
 \* demote (input_file.py:507): entity2uuid, as_str_if_uuid, workspace2path
 DemoteE(t) ==
-    CASE t.c \in {"Ent", "Id"} -> I("IdText", t.x)
+    CASE t.c \in {"Ent", "EntB", "Id"} -> I("IdText", t.x)
       [] t.c = "Ws"    -> T("WsPath")
       [] t.c = "WsNew" -> T("StrG5")
       [] OTHER -> t
@@ -105,11 +114,11 @@ StringifyE(t) ==
       [] OTHER -> t
 ToDiskE(t) == StringifyE(DemoteE(t))
 \* entity2uuid (shared/utils.py:381): the identifier of a promoted value
-IdOfE(t) == IF t.c = "Ent" THEN I("Id", t.x) ELSE t
+IdOfE(t) == IF t.c \in {"Ent", "EntB"} THEN I("Id", t.x) ELSE t
 \* the identifications the property allows: "identifiers promoted to the same workspace entities,
 \* workspace paths re-opened as workspaces"
 CanonE(t) ==
-    CASE t.c \in {"Id", "IdText"} /\ t.x # "unk" -> I("Ent", t.x)
+    CASE t.c \in {"Id", "IdText", "EntB"} /\ t.x # "unk" -> I("Ent", t.x)
       [] t.c = "WsPath" -> T("Ws")
       [] t.c = "StrG5"  -> T("WsNew")
       [] OTHER -> t
@@ -200,13 +209,24 @@ Related(f1, f, r) ==
       [] r = "dep"    -> IF f.kind # "plain" /\ (f1.opt = "T" \/ f1.kind = "bool")
                          THEN {[f EXCEPT !.dep = 1, !.dept = t] : t \in {"enabled", "disabled"}} ELSE {}
       [] r = "group"  -> IF f.kind # "plain" /\ f1.kind # "plain" THEN {[f EXCEPT !.grp = "g"]} ELSE {}
+      \* group member that also has a dependency (here on the groupOptional holder itself): requires_value
+      \* lets the switched-off group win over the dependency (ui_json/utils.py:139-152)
+      [] r = "gd"     -> IF f.kind # "plain" /\ f1.opt = "T"
+                         THEN {[f EXCEPT !.grp = "g", !.dep = 1, !.dept = t] : t \in {"enabled", "disabled"}} ELSE {}
       [] OTHER -> {f}
-Lead(f1, rs) == IF "group" \in rs THEN [f1 EXCEPT !.grp = "g", !.gopt = "T"] ELSE f1
+Lead(f1, rs) == IF "group" \in rs \/ "gd" \in rs THEN [f1 EXCEPT !.grp = "g", !.gopt = "T"] ELSE f1
+\* driver p1 outside of the group, p2 holds groupOptional, p3 is a member that depends on p1
+Files3gd == IF "gd3" \notin Relations THEN {} ELSE
+    UNION {{<<f1, [f2 EXCEPT !.grp = "g", !.gopt = "T"], [f3 EXCEPT !.grp = "g", !.dep = 1, !.dept = t]>> :
+               t \in {"enabled", "disabled"}} :
+           f1 \in {f \in Forms : f.opt = "T" \/ f.kind = "bool"}, f2 \in {f \in Forms : f.opt = "T"},
+           f3 \in {f \in Forms : f.kind # "plain"}}
 Files ==
     IF N = 1 THEN {<<f>> : f \in Forms}
     ELSE IF N = 2 THEN UNION {{<<Lead(f1, {r}), g>> : g \in Related(f1, f2, r)} : f1 \in Forms, f2 \in Forms, r \in Relations}
-    ELSE UNION {{<<Lead(f1, {r2, r3}), g2, g3>> : g2 \in Related(f1, f2, r2), g3 \in Related(f1, f3, r3)} :
-                  f1 \in Forms, f2 \in Forms, f3 \in Forms, r2 \in Relations, r3 \in Relations}
+    ELSE Files3gd \cup
+         UNION {{<<Lead(f1, {r2, r3}), g2, g3>> : g2 \in Related(f1, f2, r2), g3 \in Related(f1, f3, r3)} :
+                  f1 \in Forms, f2 \in Forms, f3 \in Forms, r2 \in Relations \ {"gd3"}, r3 \in Relations \ {"gd3"}}
 
 \* ------------------------------------------------------------------ typed domain of a form (used for validate = TRUE
 \* and for the values SetValue may use); validation proper is C15's subject
@@ -270,7 +290,7 @@ SetEnabled(F, k, b) ==
        ELSE G
 
 \* PropertyGroup is not an Entity (groups/property_group.py:33)
-IsEntOrId(v) == ~v.l /\ (v.e[1].c = "Id" \/ (v.e[1].c = "Ent" /\ v.e[1].x \notin PGs))
+IsEntOrId(v) == ~v.l /\ (v.e[1].c = "Id" \/ (v.e[1].c \in {"Ent", "EntB"} /\ v.e[1].x \notin PGs))
 \* input_file.py:249-284 update_ui_values, one (key, value) pair
 UpdOne(F, k, v, upd) ==
     LET f == F[k] IN
@@ -368,7 +388,7 @@ Init ==
     /\ validate => StrictFile(raw)
     /\ loaded = FALSE /\ dead = FALSE
     /\ forms = raw /\ data = <<>> /\ req = <<>> /\ disk = <<>> /\ wdata = <<>> /\ wen = <<>>
-    /\ fresh = FALSE /\ rfail = "" /\ nset = 0 /\ nwrite = 0
+    /\ fresh = FALSE /\ rfail = "" /\ nset = 0 /\ nwrite = 0 /\ wsgen = 0 /\ nassign = 0
     /\ last = NoLast
 
 Load ==
@@ -379,7 +399,7 @@ Load ==
             /\ last' = [NoLast EXCEPT !.act = "Load"]
        ELSE /\ dead' = TRUE /\ UNCHANGED <<loaded, forms, data, req>>
             /\ last' = [NoLast EXCEPT !.act = "Load", !.out = "refused"]
-    /\ UNCHANGED <<raw, validate, upden, disk, wdata, wen, fresh, rfail, nset, nwrite>>
+    /\ UNCHANGED <<wsgen, nassign, raw, validate, upden, disk, wdata, wen, fresh, rfail, nset, nwrite>>
 
 \* set_data_value validates first (input_file.py:433-446) then data[key] = value, update_ui_values({key: value})
 SetValue(k, v) ==
@@ -398,7 +418,7 @@ SetValue(k, v) ==
             /\ fresh' = FALSE
             /\ last' = [NoLast EXCEPT !.act = "SetValue", !.k = k, !.v = v]
     /\ nset' = nset + 1 /\ rfail' = ""
-    /\ UNCHANGED <<raw, validate, upden, loaded, dead, req, disk, wdata, wen, nwrite>>
+    /\ UNCHANGED <<wsgen, nassign, raw, validate, upden, loaded, dead, req, disk, wdata, wen, nwrite>>
 
 \* write_ui_json: update_ui_values(data) with update_enabled, then json.dump(stringify(demote(ui_json)))
 Write ==
@@ -410,7 +430,7 @@ Write ==
        /\ wen' = [k \in P |-> F[k].en]
     /\ nwrite' = nwrite + 1 /\ fresh' = FALSE /\ rfail' = ""
     /\ last' = [NoLast EXCEPT !.act = "Write", !.obs = disk']
-    /\ UNCHANGED <<raw, validate, upden, loaded, dead, data, req, nset>>
+    /\ UNCHANGED <<wsgen, nassign, raw, validate, upden, loaded, dead, data, req, nset>>
 
 \* read_ui_json(path, validate=validate) + .data ; a refused read leaves the caller with the old object
 Read ==
@@ -421,7 +441,29 @@ Read ==
             /\ last' = [NoLast EXCEPT !.act = "Read"]
        ELSE /\ rfail' = (IF R.why = "legit" THEN "" ELSE R.why) /\ fresh' = FALSE /\ UNCHANGED <<forms, data, req>>
             /\ last' = [NoLast EXCEPT !.act = "Read", !.out = "refused"]
-    /\ UNCHANGED <<raw, validate, upden, loaded, dead, disk, wdata, wen, nset, nwrite>>
+    /\ UNCHANGED <<wsgen, nassign, raw, validate, upden, loaded, dead, disk, wdata, wen, nset, nwrite>>
+
+\* in_file.data = value (input_file.py:121-150): promote, validate_data, update_ui_values(value); value = the
+\* identifiers of the current data (what a caller holding uuids assigns)
+Assign ==
+    /\ loaded /\ nassign < MaxAssign
+    /\ \A k \in P : ~HasT(data[k], I("Id", "unk"))
+    /\ LET D == [k \in P |-> MapV(PromoteE, MapV(IdOfE, data[k]))] IN
+       IF validate /\ (\E k \in P : forms[k].kind # "plain" /\ D[k] = NoneV /\ req[k])
+       THEN /\ UNCHANGED <<forms, data, fresh>>
+            /\ last' = [NoLast EXCEPT !.act = "Assign", !.out = "refused"]
+       ELSE /\ data' = D
+            /\ forms' = UpdAll(forms, D, upden, 1)
+            /\ fresh' = FALSE
+            /\ last' = [NoLast EXCEPT !.act = "Assign"]
+    /\ nassign' = nassign + 1 /\ rfail' = ""
+    /\ UNCHANGED <<wsgen, raw, validate, upden, loaded, dead, req, disk, wdata, wen, nset, nwrite>>
+
+Edit ==
+    /\ loaded /\ wsgen < MaxEdit
+    /\ wsgen' = wsgen + 1
+    /\ last' = [NoLast EXCEPT !.act = "Edit"]
+    /\ UNCHANGED <<nassign, raw, validate, upden, loaded, dead, forms, data, req, disk, wdata, wen, fresh, rfail, nset, nwrite>>
 
 \* observations (no state change)
 DemoteMap(D) == [k \in DOMAIN D |-> MapV(DemoteE, D[k])]
@@ -437,7 +479,7 @@ Promote == /\ ObsHere /\ NoUnknownId
            /\ last' = [NoLast EXCEPT !.act = "Promote", !.obs = PromoteMap(IdsMap(data))]
            /\ UNCHANGED vw
 
-Next == Load \/ Write \/ Read \/ Demote \/ Promote \/ \E k \in P : \E v \in SetDomain(forms[k]) : SetValue(k, v)
+Next == Load \/ Write \/ Read \/ Assign \/ Edit \/ Demote \/ Promote \/ \E k \in P : \E v \in SetDomain(forms[k]) : SetValue(k, v)
 Spec == Init /\ [][Next]_vars
 
 \* ------------------------------------------------------------------ properties (C14)
@@ -462,20 +504,20 @@ Explained == \A v \in Viol : v.cause # "unexplained"
 PromoteDemote ==
     loaded => \A k \in P : \A i \in DOMAIN data[k].e :
         LET t == data[k].e[i] IN
-        /\ t.c = "Ent" => (PromoteE(IdOfE(t)) = t /\ NumifyE(DemoteE(PromoteE(IdOfE(t)))) = IdOfE(t))
+        /\ t.c \in {"Ent", "EntB"} => (CanonE(PromoteE(IdOfE(t))) = CanonE(t) /\ NumifyE(DemoteE(PromoteE(IdOfE(t)))) = IdOfE(t))
         /\ (t.c = "Id" /\ t.x # "unk") => NumifyE(DemoteE(PromoteE(t))) = t
 \* writing never changes the flat view; a refused action changes nothing
 WriteKeepsData == [][last'.act = "Write" => data' = data]_vars
 TypeOK == /\ loaded => (Len(forms) = N /\ Len(data) = N)
           /\ \A k \in DOMAIN disk : \A i \in DOMAIN disk[k].value.e :
-                disk[k].value.e[i].c \notin {"None", "PInf", "NInf", "Id", "Ent", "Ws", "WsNew"}   \* only JSON-able text on disk
+                disk[k].value.e[i].c \notin {"None", "PInf", "NInf", "Id", "Ent", "EntB", "Ws", "WsNew"}   \* only JSON-able text on disk
 
 \* ------------------------------------------------------------------ export
 Header == [title |-> S(T("Str")), geoh5 |-> S(T("Ws")), run_command |-> NoneV, run_command_boolean |-> S(T("False")),
            monitoring_directory |-> NoneV, conda_environment |-> NoneV, conda_environment_boolean |-> S(T("False")),
            workspace |-> NoneV]
 \* raw is printed with the initial states only, the JSON text with the Write transition only (last.obs)
-StateJson == [raw |-> IF ~loaded /\ ~dead THEN raw ELSE <<>>, validate |-> validate, upden |-> upden, loaded |-> loaded,
+StateJson == [raw |-> IF ~loaded /\ ~dead THEN raw ELSE <<>>, validate |-> validate, upden |-> upden, wsgen |-> wsgen, loaded |-> loaded,
               forms |-> IF loaded THEN forms ELSE <<>>, data |-> data,
               viol |-> Viol, init |-> (~loaded /\ ~dead)]
 ASSUME PrintT(<<"HDR", ToJson(Header)>>)
